@@ -31,6 +31,7 @@ func resolveDependentFields(
 	parentPackage string,
 	dependencies map[string]string,
 	subdefinition string,
+	resolving map[string]bool, // types currently being resolved, to detect cycles
 ) ([]Field, error) {
 	fields := []Field{}
 	for i, line := range strings.Split(subdefinition, "\n") {
@@ -85,27 +86,36 @@ func resolveDependentFields(
 			if typeIsQualified {
 				fieldParentPackage = strings.Split(fieldType, "/")[0]
 			}
+			dependency := fieldType
 			subdefinition, typeIsPresent := dependencies[fieldType]
 			switch {
 			case typeIsPresent:
 				break
 			case fieldType == "Header":
-				subdefinition, ok = dependencies["std_msgs/Header"]
+				dependency = "std_msgs/Header"
+				subdefinition, ok = dependencies[dependency]
 				if !ok {
 					return nil, fmt.Errorf("dependency Header not found")
 				}
 			case !typeIsPresent && !typeIsQualified:
 				qualifiedType := fieldParentPackage + "/" + fieldType
+				dependency = qualifiedType
 				subdefinition, ok = dependencies[qualifiedType]
 				if !ok {
 					return nil, fmt.Errorf("dependency %s not found", qualifiedType)
 				}
 			}
+			if resolving[dependency] {
+				return nil, fmt.Errorf("type %s is defined in terms of itself", dependency)
+			}
+			resolving[dependency] = true
 			recordFields, err = resolveDependentFields(
 				fieldParentPackage,
 				dependencies,
 				subdefinition,
+				resolving,
 			)
+			delete(resolving, dependency)
 			if err != nil {
 				return nil, fmt.Errorf("failed to resolve dependent record: %w", err)
 			}
@@ -167,7 +177,7 @@ func ParseMessageDefinition(parentPackage string, data []byte) ([]Field, error) 
 		rosType := strings.TrimPrefix(header, "MSG: ")
 		dependencies[rosType] = strings.Join(lines[1:], "\n")
 	}
-	fields, err := resolveDependentFields(parentPackage, dependencies, definition)
+	fields, err := resolveDependentFields(parentPackage, dependencies, definition, map[string]bool{})
 	if err != nil {
 		return nil, fmt.Errorf("failed to build dependent records: %w", err)
 	}
@@ -197,6 +207,9 @@ func parseArrayType(s string) (isArray bool, baseType string, fixedSize int) {
 	}
 	leftBracketIndex := strings.Index(s, "[")
 	rightBracketIndex := strings.Index(s, "]")
+	if rightBracketIndex < leftBracketIndex {
+		return false, "", 0
+	}
 	baseType = s[:leftBracketIndex]
 	size := s[leftBracketIndex+1 : rightBracketIndex]
 	if size == "" {
